@@ -342,7 +342,7 @@ func (c *Cache) mqUnsubscribe(v interface{}) {
 		verifNote("cacheEvict", "name", eventSub.ResourceName, "done", false, "count", verifCount(eventSub))
 		return
 	}
-	verifNote("cacheEvict", "name", eventSub.ResourceName, "done", true, "count", verifCount(eventSub))
+	verifNote("cacheEvict", "name", eventSub.ResourceName, "ep", eventSub, "done", true, "count", verifCount(eventSub))
 
 	delete(c.eventSubs, eventSub.ResourceName)
 
